@@ -40,5 +40,14 @@ def run(ck):
         elif rc == 0:
             ck.validate_trace("Trace_Interp", "Trace_Interp.cfg", cmd[-1], "linear/trace-%s-%s" % (sp["flavour"], sp["name"]), n_traces=1,
                               n_events=s.get("events", 0))
+    # lattice exactness when the stored value needs narrowing to the coordinate precision: oracle = Float!Narrow
+    fc = ck.path("float-cases.ndjson")
+    ck.tlc("FloatMC", "MC_Float.cfg", env={"VF_OUT": fc}, timeout=600)
+    for sp, b, log in built:
+        if b and sp["name"] == "h_linear_n1":
+            rc, out, err = ck.run([b, "lattice", fc], timeout=600)
+            s = ck.harness_output("linear-lattice-" + sp["flavour"], rc, out, err)
+            ck.cov["cases_replayed"] += s.get("cases", 0)
+            ck.cov["impl_checks"] += s.get("checks", 0)
     ck.assume("exact domain: |stored value| < 2^10 and <= 5 fractional bits per axis, so every float operation is exact; the size of "
               "the rounding error for arbitrary finite floats is not decided (DESIGN.md section 6)")
